@@ -13,6 +13,8 @@
  *                 end, close, free
  *       writez:   a = content, c = dictionary; the whole life of a writing context: create, options (zstd, dictionary,
  *                 digest types), write / end-chunk / write, close, free
+ *       nowrite:  a = content; a writing context that is switched to ZCK_NO_WRITE after zck_init_write (the library closes
+ *                 its temporary file), then written to, closed and freed - descriptor numbers are process-wide state
  *       misc:     a = file, b = another file: name tables, range rendering, error strings, chunk requests, matching
  *   explore threads=<i,j[,k]> bound=<preemptions> [maxexec=<n>]      one case: all schedules within the bound
  *   free threads=<i,j[,k]> reps=<n>                                    one case: free-running (race pass, tsan variant)
@@ -103,7 +105,7 @@ static void prep(tstate *t) {
     } else if(!strcmp(s->scen, "life") || !strcmp(s->scen, "misc")) {
         t->fd1 = tmp_file_with("ql", s->a.p, s->a.n);
         if(s->b.n) t->fd2 = tmp_file_with("qL", s->b.p, s->b.n);
-    } else if(!strcmp(s->scen, "writez")) {
+    } else if(!strcmp(s->scen, "writez") || !strcmp(s->scen, "nowrite")) {
         t->fd1 = tmp_file("qz");
     } else die("sched: unknown scenario %s", s->scen);
 }
@@ -238,6 +240,21 @@ static void body(void *v) {
         sha256_hex(f.p, f.n, h);
         blob_free(&f);
         snprintf(t->obs, sizeof t->obs, "writez:ok=%d:rets=%zd,%zd,%zd:close=%d:file=%.16s", ok, r1, r2, r3, cl, h);
+    } else if(!strcmp(s->scen, "nowrite")) {
+        zckCtx *z = zck_create();
+        int ok = z && zck_init_write(z, t->fd1);
+        int nw = ok && zck_set_ioption(z, ZCK_NO_WRITE, 1);
+        ok = ok && zck_set_ioption(z, ZCK_COMP_TYPE, ZCK_COMP_NONE) && zck_set_ioption(z, ZCK_MANUAL_CHUNK, 1);
+        size_t half = s->a.n / 2;
+        ssize_t r1 = ok ? zck_write(z, (char *)s->a.p, half) : -9;
+        ssize_t r2 = ok ? zck_end_chunk(z) : -9;
+        ssize_t r3 = ok ? zck_write(z, (char *)s->a.p + half, s->a.n - half) : -9;
+        int cl = ok ? zck_close(z) : -9;
+        char *dd = ok ? zck_get_data_digest(z) : NULL;
+        ssize_t cnt = ok ? zck_get_chunk_count(z) : -9;
+        snprintf(t->obs, sizeof t->obs, "nowrite:ok=%d,%d:rets=%zd,%zd,%zd:close=%d:count=%zd:digest=%.16s", ok, nw, r1, r2, r3, cl, cnt, dd ? dd : "-");
+        free(dd);
+        if(z) zck_free(&z);
     } else if(!strcmp(s->scen, "misc")) {
         obsacc *o = calloc(1, sizeof *o);
         for(int ty = 0; ty < 7; ty++) oa(o, "%s,%s;", zck_hash_name_from_type(ty), zck_comp_name_from_type(ty));
